@@ -620,6 +620,12 @@ def run(chk, P):
     r03_6(chk, P)
     chk.floor('R03.6', 1)
     from rules import pagestate
+    chk.rule('R03.14', 'a clean-up releases only what was set up: a local vorbis_info / vorbis_comment / ogg_stream_state is handed to '
+             'its clear function only on paths on which it was initialised (same obligations as R12.11) -- a merged error exit that '
+             'clears the locals of a header fetch which failed before its init calls follows whatever pointers the stack held')
+    from rules import c12
+    c12.r12_11(common.Proxy(chk, 'R03.14'), P, rule='R03.14')
+    chk.floor('R03.14', 6)
     pagestate.packet_filled(chk, P, 'R03.8')
     chk.floor('R03.8', 8)
     import k3
